@@ -286,7 +286,7 @@ def adjacency(ctx):
     ln = lp.body[-1].lineno
     ex = lambda src: roles.expect(src, d, ln, A=A, K=K, P0=pe[0], P1=pe[1], P2=pe[2])
     want = {(ex("A[0, K]"), ex("P1[K]")), (ex("A[1, K]"), ex("P2[K]")), (ex("A[2:, K]"), ex("_get_shared_edge_information_for_two_elements(P0, P1[K], P2[K]).flatten()"))}
-    alloc = d.lookup(A, ln)
+    alloc = d.alloc(A, ln)
     rows = None
     if alloc and alloc[0] == "expr" and isinstance(alloc[1], ast.Call) and alloc[1].args and isinstance(alloc[1].args[0], ast.Tuple) and isinstance(alloc[1].args[0].elts[0], ast.Constant):
         rows = alloc[1].args[0].elts[0].value
@@ -371,7 +371,9 @@ def boundary(ctx):
     msg = "self._vertex_on_boundary is not assigned from a local flag array"
     if len(vs) == 1 and isinstance(vs[0].vnode, ast.Name):
         arr = vs[0].vnode.id
-        alloc_ok = vs[0].value in (roles.expect("_np.full(self.number_of_vertices, False)", defs, ln), roles.expect("_np.zeros(self.number_of_vertices, dtype=bool)", defs, ln))
+        a0 = defs.alloc(arr, vs[0].node.lineno)
+        alloc_ok = a0 is not None and a0[0] == "expr" and roles.canon(a0[1], defs).replace(" ", "") in (
+            roles.expect("_np.full(self.number_of_vertices, False)", defs, ln), roles.expect("_np.zeros(self.number_of_vertices, dtype=bool)", defs, ln))
         marks = [s for s in S if isinstance(s.tnode, ast.Subscript) and unparse(s.tnode.value) == arr]
         good = False
         if len(marks) == 1 and marks[0].value == "True" and not marks[0].guards:
